@@ -219,6 +219,21 @@ func TestC09(t *testing.T) {
 			r.Violate(rep.Sig{"kind": out.Kind, "shape": "identical-content-files"}, "two files with identical content: "+out.Msg, c)
 		}
 	}
+	// two DIFFERENT files whose content hashes share the first 7 hex digits (f1a2e1d; found by a birthday search over nonce
+	// comments) are two modules as well (known finding C09-hash-prefix-collision: same root, identity = 28-bit hash prefix)
+	if e.Shard == 0 {
+		mk := func(i int) string {
+			return fmt.Sprintf("// n=%d\nfunc Name() string {\n\treturn \"v%d\"\n}\n", i, i)
+		}
+		c := execCase{Kind: "bash-run", Property: "C09", Main: "main.tsh", ExpectStdout: "v6365 v26624\n", ExpectStatus: 0,
+			Files: map[string]string{"main.tsh": "import (\n\ta \"a.tsh\"\n\tb \"b.tsh\"\n)\nprint(a.Name(), b.Name())\n", "a.tsh": mk(6365), "b.tsh": mk(26624)}}
+		r.Eval()
+		r.Class("hash-prefix-collision")
+		r.NonTrivial("hash-prefix-collision", nil)
+		if out := runExecCase(c); !out.OK {
+			r.Violate(rep.Sig{"kind": out.Kind, "shape": "hash-prefix-collision"}, "two files whose hashes share the 7-digit prefix: "+out.Msg, c)
+		}
+	}
 	_ = run.Bash
 }
 
